@@ -117,6 +117,9 @@ MOS += [
        functions=[("tiered_engine.rs", "insert")]),
     MO("O4.3/delete", "TieredEngine::delete / batch_delete: canonical delete first (succeeded), then the hot mirror, cache entry and query cache are scrubbed before Ok",
        allof(precedes(T + "delete", call(r"= HnswBackend::delete\(", name="cold_tier.delete"), call(r"= HotTier::delete\(", name="hot_tier.delete")),
+             # the hot mirror is scrubbed on every successful canonical delete (found or not): otherwise a later drain "repairs" the deleted record from the mirror
+             follows(T + "delete", call(r"= HnswBackend::delete\(", name="cold_tier.delete"), call(r"= HotTier::delete\(", name="hot_tier.delete"), exit="ok"),
+             follows(T + "batch_delete", call(r"= HnswBackend::batch_delete\(", name="cold_tier.batch_delete"), call(r"= HotTier::batch_delete\(", name="hot_tier.batch_delete"), exit="ok"),
              only_via(T + "delete", call(r"= HotTier::delete\(", name="hot_tier.delete"), Arm(r"^discr\(try\(call HnswBackend::delete\)\)$", {"0"}, name="cold_tier.delete()? -> Ok")),
              follows(T + "delete", call(r"= HnswBackend::delete\(", name="cold_tier.delete"), call(r"as cache_strategy::CacheStrategy>::invalidate\(", name="cache_strategy.invalidate"), exit="ok", assume=[Arm(r"^\(\(\{try\(call HnswBackend::delete\)\} as Continue\)\.0: bool\)$", {"otherwise"}, name="cold_deleted == true")]),
              follows(T + "delete", call(r"= HnswBackend::delete\(", name="cold_tier.delete"), call(r"= QueryHashCache::invalidate_doc\(", name="query_cache.invalidate_doc"), exit="ok", assume=[Arm(r"^\(\(\{try\(call HnswBackend::delete\)\} as Continue\)\.0: bool\)$", {"otherwise"}, name="cold_deleted == true")]),
